@@ -203,6 +203,8 @@ def _verify_unit(name, tier='quick', seed=0, threads=8, disabled_hints=(), depth
     r.autosliced_fns = list(getattr(u, 'autosliced_fns', []))
     r.fn_idents = dict(getattr(u, 'fn_idents', {}))
     r.fn_closures = dict(getattr(u, 'fn_closures', {}))
+    r.fn_lines = dict(getattr(u, 'fn_lines', {}))
+    r.fn_renames = dict(getattr(u, 'fn_renames', {}))
     r.opaque = u.opaque
     r.notes = u.notes
     r.assumptions = scan_assumptions(text)
